@@ -890,7 +890,7 @@ theorem push_spec_hashes [DecidableEq H] (hf : HashFn α H) (xs : List α) (e : 
     Pmmr.push hf (Spec.Mmr.hashes hf xs) e = some (Spec.Mmr.hashes hf (xs ++ [e])) := by
   have h1 := (push_root hf xs (by omega)).1
   have h2 := (push_root hf (xs ++ [e]) (by simp; omega)).1
-  rw [pushAll_append, h1] at h2
+  rw [pushAll_app, h1] at h2
   simpa [pushAll_singleton] using h2
 
 /-- **push on a valid size is `push_root`'s statement**: a handle that is the MMR of `xs` accepts the
